@@ -191,6 +191,11 @@ func main() {
 	opt := ev.Opt{HangViolation: true, MaxCaseSeconds: 60}
 	r.Cases("kat", r.N(56, 560), opt, katCase)
 	r.Cases("cbc", r.N(120000, 4000000), opt, cbcCase)
+	// the same workload on parallel workers under the race detector: package-level state shared
+	// between instances that no goroutine shares is reported from the happens-before relation,
+	// whether or not the accesses collide in this run (and however loaded the machine is)
+	r.CasesProc("cbc/race-parallel", r.N(1500, 40000), ev.Opt{Bin: "race", Procs: 2, Workers: 8, AlwaysLog: true, HangViolation: true, MaxCaseSeconds: 120}, cbcCase)
+	r.CasesProc("gcm/race-parallel", r.N(1200, 30000), ev.Opt{Bin: "race", Procs: 2, Workers: 8, AlwaysLog: true, HangViolation: true, MaxCaseSeconds: 120}, gcmCase)
 	r.Cases("cbc-hostile", r.N(200000, 8000000), opt, cbcHostileCase)
 	r.Cases("gcm", r.N(100000, 3000000), opt, gcmCase)
 	r.Cases("gcm-tamper", r.N(2646, 132300), opt, gcmTamperCase)
